@@ -137,12 +137,22 @@ Qed.
 
 (* the naming operations of the graph *)
 Definition is_adding (o : gop) : bool :=
-  match o with GAdd _ | GCtor _ => true | _ => false end.
+  match o with GAdd _ | GCtor _ _ => true | _ => false end.
+
+Definition named_in_g (g : gst) (v : N) : bool := match g_vname g v with Some _ => true | None => false end.
+
+Lemma gctor_spec g ins inits : exists g1 g2,
+  g_regvs g (filter (named_in_g g) (ins ++ inits)) = Some g1 /\ g_regvs g1 ins = Some g2 /\
+  kept_fresh g g1 /\ kept_fresh g1 g2.
+Proof.
+  destruct (g_regvs_spec (filter (named_in_g g) (ins ++ inits)) g) as [g1 [H1 [K1 _]]].
+  destruct (g_regvs_spec ins g1) as [g2 [H2 [K2 _]]]. exists g1, g2. auto.
+Qed.
 
 Lemma gstep_total g o : exists g1 r, gstep g o = Some (g1, r).
 Proof.
   destruct o; simpl; eauto.
-  - destruct (g_regvs_spec vals g) as [g1 [H _]]. exists g1, (Ok tt). rewrite H. reflexivity.
+  - destruct (gctor_spec g ins inits) as [g1 [g2 [H1 [H2 _]]]]. unfold named_in_g in H1. rewrite H1, H2. eauto.
   - destruct (g_addnodes_spec ns g) as [g1 [r [H _]]]. eauto.
   - destruct (g_in g n); eauto.
 Qed.
@@ -150,7 +160,8 @@ Qed.
 Lemma gstep_adding g o g1 r : is_adding o = true -> gstep g o = Some (g1, r) -> kept_fresh g g1.
 Proof.
   destruct o; simpl; try discriminate; intros _ H.
-  - destruct (g_regvs_spec vals g) as [g2 [H2 [K _]]]. rewrite H2 in H. inversion H; subst. exact K.
+  - destruct (gctor_spec g ins inits) as [ga [gb [H1 [H2 [K1 K2]]]]]. unfold named_in_g in H1. rewrite H1, H2 in H.
+    inversion H; subst. eapply kept_fresh_trans; eassumption.
   - destruct (g_addnodes_spec ns g) as [g2 [r2 [H2 K]]]. rewrite H2 in H. inversion H; subst. exact K.
 Qed.
 
